@@ -16,6 +16,7 @@ import (
 
 	samlxml "github.com/zitadel/saml/pkg/provider/xml"
 
+	"github.com/zitadel/saml/pkg/provider"
 	"github.com/zitadel/saml/pkg/provider/key"
 
 	"verif/harness/core"
@@ -369,6 +370,75 @@ func c18Harvest(r *core.Run, idx int, rng *rand.Rand) {
 	}
 }
 
+// c18Metadata: the metadata document is a protocol message too. One provider serves it several times, the first
+// time (or a later time) while a key cannot be read: every reply with status 200 is one well-formed EntityDescriptor
+// that carries the configured values exactly; a failure is an error status, never an empty or partial document.
+func c18Metadata(r *core.Run, idx int, rng *rand.Rand) {
+	const wl = "metadata_documents"
+	org := &provider.Organisation{Name: "Org " + legalXMLString(rng, 4), DisplayName: "Display " + legalXMLString(rng, 4), URL: "https://org.example/" + plainString(rng, 4)}
+	o := env.Opts{Org: org, MetaSigAlg: []string{"", spsim.AlgRSASHA256}[idx%2]}
+	e := env.Static(o)
+	faultAt := idx % 4 // which of the requests meets the key fault (3 = none)
+	fk := []string{sim.FaultError, sim.FaultTimeout, sim.FaultNilRecord, sim.FaultKeyNoCert, sim.FaultCertNoKey, sim.FaultPoolClosed}[rng.Intn(6)]
+	op := []string{"GetResponseSigningKey", "GetMetadataSigningKey"}[rng.Intn(2)]
+	for k := 0; k < 4; k++ {
+		tag := fmt.Sprintf("md%d-%d", idx, k)
+		e.W.Plan = nil
+		if k == faultAt {
+			e.W.Plan = func(t, o string, _ int) string {
+				if t == tag && o == op {
+					return fk
+				}
+				return ""
+			}
+		}
+		call := e.Do(env.Req{Path: env.PathMetadata, Tag: tag})
+		class := fmt.Sprintf("metadata|request_%d|fault_at=%d|signed=%v", k, faultAt, o.MetaSigAlg != "")
+		desc := map[string]any{"request": k, "fault_at_request": faultAt, "fault": fk, "failing_operation": op, "organisation": org}
+		viol := func(clause, reason string) {
+			r.Violate(core.Violation{Clause: clause, Class: class, Reason: reason, Workload: wl, Index: idx, Case: desc, Observed: call.Describe()})
+		}
+		r.Eval(fmt.Sprintf("%s|%s|%s", class, fk, op))
+		if call.Panic != "" {
+			viol("panic", call.Panic)
+			return
+		}
+		if call.D.Status != 200 {
+			r.Count("metadata_error_replies", 1)
+			continue
+		}
+		r.Count("metadata_documents_served", 1)
+		ok, perr, nodes, err := verify.PyWF(call.D.Body, true)
+		if err != nil {
+			r.Inconclusive("python oracle unavailable: " + err.Error())
+			return
+		}
+		if !ok || len(nodes) == 0 {
+			viol("not_wellformed", fmt.Sprintf("status 200, but the body (%d bytes) is not one well-formed XML document: %s", len(call.D.Body), perr))
+			continue
+		}
+		if nodes[0].Local != "EntityDescriptor" || nodes[0].Attrs["entityID"] == "" {
+			viol("structure_changed_by_data", fmt.Sprintf("root element %q, entityID %q", nodes[0].Local, nodes[0].Attrs["entityID"]))
+			continue
+		}
+		// configured values come back exactly (they are legal XML strings)
+		got := map[string]string{}
+		for _, n := range nodes {
+			switch n.Local {
+			case "OrganizationName", "OrganizationDisplayName", "OrganizationURL":
+				if _, dup := got[n.Local]; !dup {
+					got[n.Local] = n.Text
+				}
+			}
+		}
+		for k, want := range map[string]string{"OrganizationName": org.Name, "OrganizationDisplayName": org.DisplayName, "OrganizationURL": org.URL} {
+			if got[k] != want {
+				viol("value_changed", fmt.Sprintf("%s reads %q, configured %q", k, got[k], want))
+			}
+		}
+	}
+}
+
 func init() {
 	register(&Prop{
 		ID: "C18", Level: "exploration", DeathIsViolation: true,
@@ -386,6 +456,7 @@ func init() {
 				{Name: "codec", N: c.Pick(130, 1300), Fn: c18Codec},
 				{Name: "built_messages", N: 1, Workers: 1, Fn: c18BuiltHelper(c.Pick(260, 2600))},
 				{Name: "harvested_replies", N: c.Pick(600, 6000), Fn: c18Harvest},
+				{Name: "metadata_documents", N: c.Pick(120, 1200), Fn: c18Metadata},
 			}
 		},
 		After: func(c *Ctx) { verify.Py.Close() },
